@@ -60,7 +60,7 @@ def tokenize(s):
     return toks
 
 
-BLOCKLIKE = ('if', 'match', 'loop', 'while', 'block')
+BLOCKLIKE = ('if', 'match', 'loop', 'while', 'for', 'block')
 
 
 class RP:
@@ -429,6 +429,24 @@ class RP:
                     break
                 args.append(sub.expr())
             return ('macro', name, args, raw)
+        if name == 'writeln':
+            # writeln!(w, "format", args..): args are expressions or `name = expression`
+            sub = RP(inner, self.what + ' writeln!')
+            w = sub.expr()
+            sub.eat('op', ',')
+            fmt = sub.eat('str')
+            args = []
+            while sub.maybe('op', ','):
+                if sub.peek()[0] == 'eof':
+                    break
+                nm = None
+                if sub.peek()[0] == 'id' and sub.t[sub.i + 1] == ('op', '='):
+                    nm = sub.eat('id')
+                    sub.eat('op', '=')
+                args.append((nm, sub.expr()))
+            if sub.peek()[0] != 'eof':
+                sub.fail('trailing tokens in writeln!')
+            return ('macro', name, [w, ('lit', 'str', fmt)] + args, raw)
         return ('macro', name, None, raw)
 
     def block(self):
@@ -608,6 +626,13 @@ class RP:
                     self.fail('while let')
                 cond = self.expr(no_struct=True)
                 return ('while', cond, self.block())
+            if v == 'for':
+                # `for <pattern> in <expr> { .. }` (only the resp2lean unit translates it)
+                self.i += 1
+                pat = self.pattern()
+                self.eat('id', 'in')
+                it = self.expr(no_struct=True)
+                return ('for', pat, it, self.block())
             if v == 'break':
                 self.i += 1
                 if self.at('life'):
